@@ -37,7 +37,7 @@ func init() {
 		ID:    "C01",
 		Level: "exploration",
 		Rule: "families: (a) definition space: header+file_id+one single-field definition (message x field number x base-type byte x size x byte order)+matching data record, through Decode/DecodeChained (accepted definitions again with 4 payload patterns, as compressed-timestamp records with and without time reference, with developer descriptors, with 1-byte reads, and as the file_id definition through DecodeHeaderAndFileID); " +
-			"(b) header space (size byte x truncation x protocol x data type x data size x header CRC) through all six entry points; (c) record-header space: every pair of record header bytes after file_id with model-expected bodies, each cut at every offset (re-framed and not); (d) crasher inputs and testdata files cut at every/strided offsets; (e) developer-field space: 0..255 developer descriptors of sizes 0..255 with 0/1/3/255 regular fields, known / unknown / file_id messages; (f) every single-byte substitution (all 255 other values at every offset) of every small valid stream and small corpus file, with and without a recomputed file CRC. " +
+			"(b) header space (size byte x truncation x protocol x data type x data size x header CRC) through all six entry points; (c) record-header space: every pair of record header bytes after file_id with model-expected bodies, each cut at every offset (re-framed and not); (d) crasher inputs and testdata files cut at every/strided offsets; (e) developer-field space: 0..255 developer descriptors of sizes 0..255 with 0/1/3/255 regular fields, known / unknown / file_id messages; (f) every single-byte substitution (all 255 other values at every offset) of every small valid stream and small corpus file, with and without a recomputed file CRC; (g) chained streams: a valid member that leaves definitions on all 16 local types followed by a member whose file_id definition (on every local type) is followed by every record header byte. " +
 			"Oracle: every call returns (no panic; watchdog for hangs). distinct = distinct (entry point, error-class or accepted) outcomes x definition classes",
 		Assumptions: []string{"readers that return (0,nil) forever are outside the alphabet", "arbitrary deep garbage beyond the structured families is not enumerated"},
 		Run:         runC01,
@@ -124,6 +124,7 @@ func runC01(w *vx.W) {
 	c01RecordHeaders(c)
 	c01Corpus(c)
 	c01DevFields(c)
+	c01Chains(c)
 	c01Substitutions(c)
 	c01Definitions(c)
 }
@@ -501,6 +502,53 @@ func c01Substitutions(c *c01ctx) {
 					c.call("DecodeChained", buf, 0)
 				}
 				w.Fam("f:single-byte-substitutions", 1)
+			}
+		}
+	}
+}
+
+// ---------- (g) chained streams whose later members lean on earlier ones ----------
+
+// c01Chains: a valid first file that leaves definitions on all 16 local types (unknown / known / mixed messages),
+// followed by a second file whose file_id definition is followed by a data record (normal and compressed header)
+// for every local type, by a definition with every header byte, or by nothing: decoder state must not leak between
+// chained files, and whatever happens must be an error, not a panic.
+func c01Chains(c *c01ctx) {
+	w := c.w
+	var firsts [][]byte
+	for v := 0; v < 3; v++ {
+		recs := fitmodel.FileIdRecords(0, 4)
+		for l := 1; l < 16; l++ {
+			var d fitmodel.Def
+			switch {
+			case v == 0 || (v == 2 && l%2 == 0):
+				d = fitmodel.Def{Local: byte(l), Global: 0xFF00 + uint16(l), Fields: []fitmodel.FieldDef{{Num: 1, Size: 2, Base: fitmodel.Uint16}}}
+			default:
+				d = recordDef(byte(l), l%2 == 1)
+			}
+			recs = append(recs, d.Bytes(), fitmodel.Data(byte(l), make([]byte, d.DataLen())))
+		}
+		firsts = append(firsts, fitmodel.File(fitmodel.DefaultHeader, recs...))
+	}
+	var idx int64
+	for fi, first := range firsts {
+		for a := 0; a < 16; a++ {
+			for h := 0; h < 256; h++ {
+				idx++
+				if !w.Mine(idx) {
+					continue
+				}
+				// second member: file_id definition on local a, then record header byte h (+ a few payload bytes)
+				second := fitmodel.File(hdr12(), fitmodel.FileIdDef(byte(a), false).Bytes(), []byte{byte(h), 4, 0, 0, 0, 0, 0, 0, 0, 0, 0})
+				b := fitmodel.Concat(first, second)
+				c.call("DecodeChained", b, 0)
+				w.Fam("g:chained-stale-state", 1)
+				if fi == 0 && h < 16 {
+					c.call("DecodeChained", b, 1)
+					// and with a proper file_id data record first, then the stale reference
+					second2 := fitmodel.File(hdr14(), fitmodel.FileIdDef(byte(a), false).Bytes(), fitmodel.Data(byte(a), []byte{4}), []byte{byte(h), 1, 2, 3, 4, 5, 6, 7, 8, 9})
+					c.call("DecodeChained", fitmodel.Concat(first, second2), 0)
+				}
 			}
 		}
 	}
